@@ -376,7 +376,7 @@ DEMOS = {"API.parse": ["F1"], "API.parse.unwind": ["F1", "F25"], "S.flags": ["F2
          "RG.prefix": ["F4"], "D.front": ["F5"], "G.free": ["F6", "F1"], "G.free.symb_fin": ["F6"], "UB.lex": ["F7", "F9"], "D.codes": ["F8"], "S.codes256": ["F8"],
          "G.create": ["F10"], "P.step.base": ["F13"], "P.restore": ["F13"], "G.ctx": ["F18"], "UB.tset.up": ["F21"], "UB.tset.test": ["F21"]}
 # + demonstration programs written by the independent sub-agents for their seeded changes (API-level, public headers only)
-for k, v in {"RG.prefix": ["S_C15_m1"], "A.fail.native": ["F33"], "RG.check": ["F27"], "RG.rule": ["F32"], "RG.verdict.native": ["F27"], "D.diff.native": ["F32"], "G.history.native": ["F18", "F6", "F4", "F1"], "RG.intake.native": ["F28"], "G.free": ["S_C14_m2"], "G.create": ["S_C17_m1"], "TOK.find": ["S_C12_m2"], "UB.lex": ["S_C11_m1"], "UB.msg.arg": ["S_C12_m1"],
+for k, v in {"RG.prefix": ["S_C15_m1"], "A.fail.native": ["F33"], "E.vlo_array.expand": ["F33"], "RG.check": ["F27"], "RG.rule": ["F32"], "RG.verdict.native": ["F27"], "D.diff.native": ["F32"], "G.history.native": ["F18", "F6", "F4", "F1"], "RG.intake.native": ["F28"], "G.free": ["S_C14_m2"], "G.create": ["S_C17_m1"], "TOK.find": ["S_C12_m2"], "UB.lex": ["S_C11_m1"], "UB.msg.arg": ["S_C12_m1"],
              "OS.top.add_byte": ["S_C19_m2"], "HT.remove": ["S_C19_m1"], "A.wrap.realloc": ["S_C17_m2"], "D.front": ["S_C17_m3"], "P.step.base": ["S_C04_m1"],
              "T.size.copy": ["S_C04_m2"], "S.oneparse": ["S_C14_m1"], "T.anode_reset": ["S_C13_m1"], "T.free.native": ["S_C13_m2", "F26"], "VLO.grow": ["S_C19_m3"]}.items():
     DEMOS[k] = DEMOS.get(k, []) + v
@@ -504,6 +504,13 @@ S(id="E.set.dists_hash", props=["C12"], spec="earley.spec.c", harness="h_dists_h
   assumes=["vector size capped by DMAX elements (object size only)"])
 S(id="E.set.new_start", props=["C12", "C14"], spec="earley.spec.c", harness="h_new_start", mode="L", enforce=["set_new_start/new_start_c"], functions=["set_new_start"],
   what="starting a new set resets exactly the six file-scope variables that describe the set being formed, whatever they held")
+S(id="E.vlo_array.expand", props=["C17", "C12"], spec="earley.spec.c", harness="h_vlo_array_expand", mode="L", canaries=2, enforce=["vlo_array_expand/vlo_array_expand_c"],
+  replace=["yaep_malloc/alloc_site_c", "_VLO_expand_memory/vlo_grow_site_c"], functions=["vlo_array_expand"], params={"quick": {"VCAP": 3}, "thorough": {"VCAP": 6}}, mem=32, timeout=1500,
+  bound="the array of vlos holds <= 3 (thorough 6) elements; the function has no loop",
+  what="C17 at the place where F33 was: at EVERY memory request made while the array of vlos grows, the array consists of initialised elements only (precondition of both allocation "
+       "contracts: a failing request leaves through yaep_parse's error exit, whose clean-up deletes every element); afterwards the array has one more initialised element iff it was "
+       "used up, the element handed out is an empty vlo, the others are untouched",
+  assumes=["A5: _VLO_expand_memory keeps the content and returns a large enough block (assumed contract, as elsewhere)", "array size capped by VCAP elements (object size only)"])
 S(id="T.rule.add", props=["C12", "C10"], spec="symtab.spec.c", harness="h_rule_add", mode="L", canaries=2, enforce=["rule_new_symb_add/rule_add_c"],
   replace=["_OS_expand_memory/os_expand_keep_c"], functions=["rule_new_symb_add"], params={"quick": {"CAP": 8, "RCAP": 3}, "thorough": {"CAP": 8, "RCAP": 3}}, mem=32, timeout=1500, tier="thorough",
   bound="the open array holds <= 3 symbols before the call; the function has no loop (thorough tier only: 5 minutes)",
